@@ -131,6 +131,19 @@ class Installation:
         return self.m["ext"].ExtendedMessage(self.m["err"].AcErrorInformationMessage(ac, self.errors.get(ac)))
 
 
+def restride(payload: bytes, pad: int) -> bytes:
+    """AT5 0xC0 payload with every repeated record lengthened by `pad` bytes (announced in the sub-header)"""
+    if len(payload) < 8:
+        return payload
+    sub, nrl, rl, rc = payload[0], payload[2] * 256 + payload[3], payload[4] * 256 + payload[5], payload[6] * 256 + payload[7]
+    if sub not in (0x21, 0x23) or rc == 0 or rl == 0 or len(payload) != 8 + nrl + rl * rc:
+        return payload
+    body = payload[8 + nrl:]
+    recs = [body[i * rl:(i + 1) * rl] + bytes([0xA5] * pad) for i in range(rc)]
+    nl = rl + pad
+    return bytes([sub, payload[1], payload[2], payload[3], nl >> 8, nl & 255, payload[6], payload[7]]) + payload[8:8 + nrl] + b"".join(recs)
+
+
 # every message a scripted console has framed in this process, with the payload the package's encoder produced
 FRAMED: dict = {4: {}, 5: {}}
 
@@ -182,6 +195,7 @@ class Console:
         self.segment: Optional[Callable[[bytes], list[bytes]]] = None
         self.turns = 0          # event-loop iterations the client gets between two segments
         self.mute: set = set()  # request kinds this console does not answer (e.g. {"error_info"})
+        self.stride_pad = 0     # AT5: extra bytes appended to every status record (a console with a newer layout)
         self.answer_controls = False
         self.manual = False                     # True: never answer, only record
         self.pid = 100
@@ -192,6 +206,8 @@ class Console:
         if r[0] != "ok":
             raise RuntimeError(f"console cannot encode {msg!r}: {r}")
         FRAMED[self.gen].setdefault(repr(msg), (msg, bytes(r[2])))
+        if self.stride_pad and self.gen == 5 and msg.message_id == 0xC0:
+            r = (r[0], r[1], restride(bytes(r[2]), self.stride_pad))
         frm = 0x90 if msg.message_id == 0x1F else 0x80
         return sockrun.build_frame(self.gen, to, frm, pid, msg.message_id, r[2])
 
